@@ -274,7 +274,7 @@ class TableWorld(World):
         if name == 'shuffle':
             st = st.copy()
             eng.havoc_node(st, args[0])
-            return [Result(st, NONE)]
+            return [Result(self.record(st, 'rng.shuffle', args), NONE)]
         raise EngineError('rng method %s' % name)
 
     def arr_method(self, eng, st, recv, n, name, args, kwargs, node):
@@ -726,7 +726,14 @@ contract(F, 'Table.subsample', tier='A', props=['C12', 'C07'],
         "implies(not by_id, kcount('subsample') == 1 and kpre('subsample', 0, 'fmt') == ('csc' if axis == 'sample' else 'csr')"
         "        and karg('subsample', 1) == n and karg('subsample', 2) == with_replacement"
         "        and karg('subsample', 0) is not self._data)",
-        "implies(by_id, kcount('subsample') == 0)",
+        "implies(by_id, kcount('subsample') == 0 and kcount('rng.shuffle') == 1)",
+        # the copy is filtered on the requested axis (kept ids / emptied vectors), then on the other axis
+        "implies(by_id, ccount('Table.filter') == 2 and carg('Table.filter', 0, 'axis') == axis "
+        "        and carg('Table.filter', 0, 'self') is result and carg('Table.filter', 0, 'inplace'))",
+        "implies(not by_id and not with_replacement, ccount('Table.filter') == 2 and carg('Table.filter', 0, 'axis') == axis)",
+        "implies(not by_id and with_replacement, ccount('Table.filter') == 3 and carg('Table.filter', 0, 'axis') == axis "
+        "        and carg('Table.filter', 1, 'axis') == axis)",
+        "carg('Table.filter', ccount_last('Table.filter'), 'axis') == ('observation' if axis == 'sample' else 'sample')",
     ],
     raises={'ValueError': ["n < 0 or (with_replacement and by_id)"]},
     modifies=[])
@@ -737,6 +744,18 @@ contract(F, 'Table.head', tier='A', props=['C08'],
     returns='Obj:Table',
     ensures=["result is not self", "n > 0 and m > 0",
              "self._data is oldref(self._data) and samecells(self._data, old(self._data.cell))"],
+    internal=[
+        # the leading n observation ids are kept first (on a copy), then the leading m sample ids of that result
+        "ccount('Table.filter') == 2",
+        "carg('Table.filter', 0, 'axis') == 'observation' and carg('Table.filter', 0, 'self') is self "
+        "and not carg('Table.filter', 0, 'inplace') and not carg('Table.filter', 0, 'invert')",
+        "len(carg('Table.filter', 0, 'ids_to_keep')) == min(n, len(self._observation_ids))",
+        "carg('Table.filter', 1, 'axis') == 'sample' and carg('Table.filter', 1, 'self') is result "
+        "and not carg('Table.filter', 1, 'invert')",
+        "len(carg('Table.filter', 1, 'ids_to_keep')) == min(m, len(self._sample_ids))",
+        "all(carg('Table.filter', 0, 'ids_to_keep')[k] == self._observation_ids[k] for k in range(min(n, len(self._observation_ids))))",
+        "all(carg('Table.filter', 1, 'ids_to_keep')[k] == self._sample_ids[k] for k in range(min(m, len(self._sample_ids))))",
+    ],
     raises={'IndexError': ["n <= 0 or m <= 0"],
             # imprecision of the model: that the table's own leading ids are known to filter is not expressible here
             'KeyError': ["n > 0 and m > 0"]},
